@@ -46,6 +46,19 @@ impl Default for SerialSettings {
     }
 }
 
+#[cfg(feature = "verif-hooks")]
+pub(crate) fn open(
+    path: &str,
+    settings: SerialSettings,
+) -> tokio_serial::Result<crate::verif::MaybeSerial> {
+    if let Some(res) = crate::verif::open_port(path) {
+        return res;
+    }
+    let builder = settings.apply(tokio_serial::new(path, settings.baud_rate));
+    SerialStream::open(&builder).map(crate::verif::MaybeSerial::Real)
+}
+
+#[cfg(not(feature = "verif-hooks"))]
 pub(crate) fn open(path: &str, settings: SerialSettings) -> tokio_serial::Result<SerialStream> {
     let builder = settings.apply(tokio_serial::new(path, settings.baud_rate));
     SerialStream::open(&builder)
